@@ -10,6 +10,7 @@
 
 use rb_harness::driver::ask;
 use rb_harness::gen_prog::{generate, Opts};
+use rb_harness::hdr_calls;
 use rb_harness::json::J;
 use rb_harness::proc_sx;
 use rb_harness::refrun::{parse_ref_answer, run_real, Observed};
@@ -366,8 +367,24 @@ impl<'a> G<'a> {
                 self.for_depth += 1;
                 let c = format!("I{}%", self.for_depth);
                 let hi = self.rng.range(1, 3);
-                let step = if self.rng.chance(1, 4) { " STEP 1" } else { "" };
-                out.push(format!("{}FOR {} = 1 TO {}{}", ind, c, hi, step));
+                // steps other than 1 and of both signs: a FOR at the top level of a FUNCTION leaves its limit and step in the
+                // register frame of its caller (user FUNCTION calls in the headers themselves: family header-calls and the
+                // shared generator; here they multiplied the work of the Lean interpreters beyond the quick tier's time)
+                let (from, to, step): (i64, i64, Option<i64>) = match self.rng.below(10) {
+                    0 | 1 => (1, hi, Some(1)),
+                    2 => (1, 2 * hi, Some(2)),
+                    3 => (hi, 1, Some(-1)),
+                    4 => (3 * hi, 1, Some(-3)),
+                    _ => (1, hi, None),
+                };
+                if step.map(|k| k != 1).unwrap_or(false) {
+                    self.feat("for-step-not-1");
+                }
+                let step_s = match step {
+                    Some(k) => format!(" STEP {}", k),
+                    None => String::new(),
+                };
+                out.push(format!("{}FOR {} = {} TO {}{}", ind, c, from, to, step_s));
                 if self.rng.chance(1, 3) {
                     out.push(format!("{}PRINT {};", inner, c));
                 }
@@ -377,7 +394,8 @@ impl<'a> G<'a> {
                     if self.rng.chance(1, 3) {
                         self.feat("exit-in-for");
                         let kw = if self.procs[k].is_fn { "FUNCTION" } else { "SUB" };
-                        out.push(format!("{}IF {} = {} THEN EXIT {}", inner, c, hi, kw));
+                        let last = if step.map(|k| k < 0).unwrap_or(false) { 1 } else { hi };
+                        out.push(format!("{}IF {} = {} THEN EXIT {}", inner, c, last, kw));
                     }
                 }
                 out.push(format!("{}NEXT", ind));
@@ -408,13 +426,26 @@ impl<'a> G<'a> {
                 out.push(format!("{}END SELECT", ind));
             }
             _ => {
-                self.feat("while");
                 let w = format!("W{}%", depth);
                 out.push(format!("{}{} = 0", ind, w));
-                out.push(format!("{}WHILE {} < {}", ind, w, self.rng.range(1, 3)));
+                // WHILE and the four DO forms; one draw gives the bound (1..3, as `range(1, 3)` would) and the form, so that
+                // the generator consumes its random stream exactly as before
+                let r = self.rng.below(24);
+                let n = 1 + r % 3;
+                let form = r / 3;
+                let lhs = w.clone();
+                let (head, tail) = match form {
+                    0 => (format!("DO WHILE {} < {}", lhs, n), "LOOP".to_owned()),
+                    1 => (format!("DO UNTIL {} >= {}", lhs, n), "LOOP".to_owned()),
+                    2 => ("DO".to_owned(), format!("LOOP WHILE {} < {}", lhs, n)),
+                    3 => ("DO".to_owned(), format!("LOOP UNTIL {} >= {}", lhs, n)),
+                    _ => (format!("WHILE {} < {}", lhs, n), "WEND".to_owned()),
+                };
+                self.feat(if form < 4 { "do" } else { "while" });
+                out.push(format!("{}{}", ind, head));
                 out.push(format!("{}{} = {} + 1", inner, w, w));
                 self.block(depth - 1, out, &inner);
-                out.push(format!("{}WEND", ind));
+                out.push(format!("{}{}", ind, tail));
             }
         }
     }
@@ -707,9 +738,14 @@ fn main() {
         "programs with SUBs and FUNCTIONs (scalars; no GOSUB/ON ERROR): a dedicated generator (1-4 procedures, 0-3 typed \
          parameters, bounded self-recursion, calls nested in argument lists, the same variable passed twice, by-value arguments converted \
          to the parameter type with overflow faults, FUNCTION without assignment, unused parameters, EXIT SUB/FUNCTION and END inside \
-         procedures, calls inside IF/FOR/WHILE/SELECT and inside PRINT lists; DIM SHARED variables read, written and passed by reference \
+         procedures, calls inside IF/FOR/WHILE/SELECT and inside PRINT lists; FOR with \
+         steps 1 / 2 / -1 / -3, WHILE and the four DO forms; DIM SHARED variables read, written and passed by reference \
          in the main module and in procedures; STATIC procedures — also recursive ones — with a call counter, called from the main module \
-         and from other procedures between calls of ordinary ones, their variables passed by reference; global CONSTs) + the shared \
+         and from other procedures between calls of ordinary ones, their variables passed by reference; global CONSTs) + the directed \
+         family header-calls (a user FUNCTION called from every header position: FOR lower / upper bound / STEP, the five loop \
+         conditions, IF / ELSEIF, SELECT selector, CASE items simple / IS / range, PRINT items; callee bodies with FOR of every step \
+         kind, SELECT CASE, calls in their own FOR header, EXIT FUNCTION inside FOR, STATIC, recursion, at their top level and nested; \
+         eight enclosing contexts) + the shared \
          program generator with procedures on; each \
          program: model-compiled instruction list = real list, VM model on it = real outcome and stdout, reference semantics = real \
          outcome and stdout. class = (feature set, outcome kind); non-trivial = at least one user procedure called.",
@@ -719,10 +755,73 @@ fn main() {
     let mut cases: Vec<Case> = vec![];
     let mut outside = 0u64;
     let mut shown_outside = 0;
+    // directed family header-calls (harness/src/hdr_calls.rs): a user FUNCTION called from every header position of every
+    // construct x callee bodies using every register- / stack-holding construct at their top level and nested x enclosing
+    // contexts; quick: half of the (position, callee) pairs of the layer's language in one context drawn at random, thorough: all.
+    // The choices come from a stream of their own, so that the generated programs stay what they were; the family comes first:
+    // its programs are small, a failure on one of them is the replay
+    {
+        let mut hrng = Rng(rng.seed() ^ 0x4843_414c_4c53);
+        let mut hc_outside = 0u64;
+        let half = hrng.below(2) as usize;
+        for pos in 0..hdr_calls::N_POS {
+            for shape in 0..hdr_calls::N_SHAPES {
+                if hdr_calls::uses_arrays(pos) || hdr_calls::uses_gosub(shape) {
+                    rep.bump("header-calls.skipped.arrays-or-gosub-outside-the-layer");
+                    continue;
+                }
+                // quick: half of the (position, callee) pairs — which half depends on the seed — in one context each
+                // (C02's quick tier runs every pair); thorough: every pair in every context
+                if !thorough && (pos + shape + half) % 2 == 1 {
+                    continue;
+                }
+                let ctxs: Vec<usize> =
+                    if thorough { (0..hdr_calls::N_CTX).collect() } else { vec![hrng.below(hdr_calls::N_CTX as u64) as usize] };
+                for ctx in ctxs {
+                    let text = hdr_calls::program(pos, shape, ctx);
+                    match proc_sx::src_and_code(&text) {
+                        Some((pp, code)) => {
+                            rep.bump("header-calls.programs");
+                            rep.bump(&format!("header-calls.position.{}", hdr_calls::pos_name(pos)));
+                            rep.bump(&format!("header-calls.callee.{}", hdr_calls::shape_name(shape)));
+                            rep.bump(&format!("header-calls.context.{}", hdr_calls::ctx_name(ctx)));
+                            cases.push(Case {
+                                text,
+                                prog: pp.program,
+                                tables: pp.tables,
+                                code,
+                                feats: format!(
+                                    "header-calls:{}+{}+{}",
+                                    hdr_calls::pos_name(pos),
+                                    hdr_calls::shape_name(shape),
+                                    hdr_calls::ctx_name(ctx)
+                                ),
+                            });
+                        }
+                        None => {
+                            hc_outside += 1;
+                            if hc_outside <= 2 {
+                                rep.sample(J::s(format!(
+                                    "header-calls program rejected by the front end or outside the modelled language:\n{}",
+                                    text
+                                )));
+                            }
+                        }
+                    }
+                }
+            }
+        }
+        rep.bump_by("header-calls.rejected-or-outside", hc_outside);
+    }
     for k in 0..n_ded {
         let (text, feats) = gen_dedicated(&mut rng, k % 3 == 0);
         match proc_sx::src_and_code(&text) {
-            Some((pp, code)) => cases.push(Case { text, prog: pp.program, tables: pp.tables, code, feats: feats.join("+") }),
+            Some((pp, code)) => {
+                for f in feats.iter().filter(|f| **f == "call-in-args" || **f == "for-step-not-1" || **f == "do") {
+                    rep.bump(&format!("dedicated.feature.{}", f));
+                }
+                cases.push(Case { text, prog: pp.program, tables: pp.tables, code, feats: feats.join("+") })
+            }
             None => {
                 outside += 1;
                 if let Ok(dir) = std::env::var("VERIF_C03P_DUMP") {
@@ -764,8 +863,15 @@ fn main() {
         handles.into_iter().flat_map(|h| h.join().unwrap()).collect()
     };
     let canswers = ask(&cases.iter().map(|c| format!("(proc.compare {} {} {})", c.prog, c.tables, c.code)).collect::<Vec<_>>());
-    let vanswers = ask(&cases.iter().map(|c| format!("(proc.run {} {})", BUDGET, c.prog)).collect::<Vec<_>>());
-    let ranswers = ask(&cases.iter().map(|c| format!("(proc.ref {} {})", FUEL, c.prog)).collect::<Vec<_>>());
+    // a program whose REAL run exhausts its instruction budget is discarded below (`discarded.real-budget`): do not let
+    // the models burn their whole budget on it (nested non-terminating loops cost fuel^depth in the big-step reference)
+    let cheap = |k: usize| reals[k].outcome == "budget";
+    let vanswers = ask(
+        &cases.iter().enumerate().map(|(k, c)| format!("(proc.run {} {})", if cheap(k) { 1 } else { BUDGET }, c.prog)).collect::<Vec<_>>(),
+    );
+    let ranswers = ask(
+        &cases.iter().enumerate().map(|(k, c)| format!("(proc.ref {} {})", if cheap(k) { 1 } else { FUEL }, c.prog)).collect::<Vec<_>>(),
+    );
     // how many explored programs satisfy the premise of Proc.compile_correct (decided by the checker
     // RbModel.Proc.progWfB, proved sound in Thm/ProcWf.lean)
     let wanswers = ask(&cases.iter().map(|c| format!("(proc.wf {})", c.prog)).collect::<Vec<_>>());
